@@ -75,8 +75,18 @@ def gen_read(rng, seq, maxlen=30):
     return rd
 
 
+# absolute error counts k on adapters of n informative bases for which the double k/n times n falls just below k: the tolerance over the full
+# adapter is k-1 there (the stored rate is what the documentation's product is taken with) - wherever a second component (index, prefilter)
+# recomputes the tolerance, it has to arrive at the same number
+FLOAT_CORNERS = [(3, 47), (1, 49), (2, 49), (4, 49), (5, 77)]
+
+
 def gen_adapter_cfg(rng, types=TYPES, maxlen=14):
     ty = rng.choice(types)
+    if rng.random() < 0.06:
+        k, n = rng.choice(FLOAT_CORNERS)
+        return dict(ty=ty, seq=rand_seq(rng, n, "ACGT"), max_errors=float(k), min_overlap=rng.randint(1, 6), read_wildcards=False,
+                    adapter_wildcards=rng.random() < 0.8, indels=rng.random() < 0.6, force_anywhere=False)
     seq = gen_adapter_seq(rng, maxlen)
     rate = rng.choice(RATES)
     if rng.random() < 0.1:
